@@ -657,7 +657,11 @@ def crosscheck_task(args):
         for nm, kind in E.inputs.items():
             if kind == 'float':
                 so.push()
-                so.add(z3.Real(nm) == z3.RealVal(str(fractions.Fraction(rnd.randint(-40, 40), rnd.choice([1, 2, 4, 8])))))
+                if 'cell' in nm or 'edge' in nm:
+                    pick = fractions.Fraction(rnd.randint(1, 24), rnd.choice([1, 2, 4, 8]))     # sizes: positive, well conditioned
+                else:
+                    pick = fractions.Fraction(rnd.randint(-40, 40), rnd.choice([1, 2, 4, 8]))
+                so.add(z3.Real(nm) == z3.RealVal(str(pick)))
                 if so.check() != z3.sat:
                     so.pop()
             elif kind == 'int':
@@ -674,6 +678,13 @@ def crosscheck_task(args):
             elif dtype == 'bool':
                 val[name] = np_random_like(val[name], rnd, boolean=True)
         fval = {k: (fractions.Fraction(float(v)) if isinstance(v, fractions.Fraction) else v) for k, v in val.items()}
+        # the comparison is exact arithmetic (engine) against doubles (CPython): ill-conditioned geometry (a cell size many
+        # orders of magnitude below the coordinates) differs by cancellation, not by semantics - such samples are skipped
+        sizes = [abs(float(v)) for k, v in fval.items() if isinstance(v, fractions.Fraction) and ('cell' in k or 'edge' in k) and v != 0]
+        coords = [abs(float(v)) for k, v in fval.items() if isinstance(v, fractions.Fraction)]
+        if sizes and coords and max(coords) / min(sizes) > 1e5:
+            out['skipped'] = 'sampled geometry is ill-conditioned for a comparison with doubles'
+            return out
         # 2. interpreter on the concrete state
         E2 = new_engine(mod, src)
         E2.valuation = fval
